@@ -42,6 +42,8 @@ func init() {
 				"chain DB and consensus library trusted; consensus constants scaled; map iteration order not controlled",
 			}, out.Violations, nil
 		},
-		Replay: func(c *runCtx, file string) error { return replayBFS(c, "c01", file, func(t string) interface{} { o, _, _ := c09Opts(t); return o }) },
+		Replay: func(c *runCtx, file string) error {
+			return replayBFS(c, "c01", file, func(t string) interface{} { o, _, _ := c09Opts(t); return o })
+		},
 	}
 }
